@@ -9,9 +9,9 @@
    (d) the variant of the period-stepping loop and the guard that makes it apply.
    Property theorems only. *)
 From Coq Require Import String.
-From LedgerV Require Import Base.Prelude Base.Round Model.Amount Model.Buffers Model.Nesting Model.Stepping Model.FormatRef Model.Aliases Model.Selection Model.Recursion Model.UnknownPayee
+From LedgerV Require Import Base.Prelude Base.Round Model.Amount Model.Buffers Model.Nesting Model.Stepping Model.FormatRef Model.Aliases Model.Selection Model.Recursion Model.UnknownPayee Model.Width
   Gen.BufferSites Gen.SafetyGuards Gen.DepthEdges
-  Proofs.BuffersProofs Proofs.NestingProofs Proofs.DivGuardProofs Proofs.SteppingProofs Proofs.FormatRefProofs Proofs.AliasesProofs Proofs.SelectionProofs Proofs.RecursionProofs Proofs.UnknownPayeeProofs.
+  Proofs.BuffersProofs Proofs.NestingProofs Proofs.DivGuardProofs Proofs.SteppingProofs Proofs.FormatRefProofs Proofs.AliasesProofs Proofs.SelectionProofs Proofs.RecursionProofs Proofs.UnknownPayeeProofs Proofs.WidthProofs.
 Import List.
 Local Open Scope Z_scope.
 
@@ -356,6 +356,37 @@ Example unknown_payee_routes :
     [({| at_start := true; at_end := false; word := [103; 114; 111; 99; 101; 114] |}, [[69]; [70]])]
     (PostIn [71; 82; 79; 67; 69; 82; 32; 76; 116; 100]) = Registered [[69]; [70]].
 Proof. reflexivity. Qed.
+
+(* ================= (f'') the columns of a name ================= *)
+
+(* unistring::width adds the answers of mk_wcwidth in a std::size_t.  When a negative answer (a
+   control character) is taken as 0 columns, a name is between 0 and length-many columns wide
+   and format_t::truncate cuts it only when it is longer than the column. *)
+Theorem unistring_width_clamped_le_length :
+  forall s, Z.of_nat (length s) < size_modulus -> 0 <= ustr_width true s <= Z.of_nat (length s).
+Proof. exact clamped_width_le_length. Qed.
+Print Assumptions unistring_width_clamped_le_length.
+
+Theorem unistring_cut_only_when_longer :
+  forall s columns, Z.of_nat (length s) < size_modulus -> is_cut true s columns = true -> columns < Z.of_nat (length s).
+Proof. exact clamped_cut_only_when_longer. Qed.
+Print Assumptions unistring_cut_only_when_longer.
+
+(* added as they are, the answers wrap the sum around: the account "^A^A^A:B" is 2^64 - 1 columns
+   wide (F211: `reg` dies in format_t::truncate) *)
+Theorem unistring_width_le_length_refuted :
+  exists s, Z.of_nat (length s) < ustr_width false s.
+Proof. exact raw_width_exceeds_length. Qed.
+Print Assumptions unistring_width_le_length_refuted.
+
+(* and the one of the two that applies to the source as it is now *)
+Theorem unistring_width_as_in_source :
+  if src_unistring_width_clamps_negative
+  then forall s, Z.of_nat (length s) < size_modulus ->
+                 0 <= ustr_width src_unistring_width_clamps_negative s <= Z.of_nat (length s)
+  else exists s, Z.of_nat (length s) < ustr_width src_unistring_width_clamps_negative s.
+Proof. exact (width_as_in_source src_unistring_width_clamps_negative). Qed.
+Print Assumptions unistring_width_as_in_source.
 
 (* ================= (g) operands picked under a precondition computed earlier ================= *)
 
